@@ -466,6 +466,10 @@ func baseline(prog int) output {
 
 func runCase(ctx *runner.Ctx, k cs) {
 	ctx.Eval(1)
+	if k.Mode == "race" {
+		runRace(ctx, k)
+		return
+	}
 	if k.Mode == "app" || k.Mode == "appcirc" {
 		runAppCase(ctx, k)
 		return
@@ -542,6 +546,45 @@ func runCase(ctx *runner.Ctx, k cs) {
 			return
 		}
 		ctx.Outcome("same-output-in-another-process")
+	}
+}
+
+// runRace compiles programs concurrently in one process, free-running on unmodified code under the race detector
+// (harness/racepass8): the compiler has no synchronisation operations, so state shared between compilations that
+// overlap in time shows as a data race or as output that differs from the sequential compilation.
+func runRace(ctx *runner.Ctx, k cs) {
+	args := []string{"test", "-race", "-vet=off", "-count=1"}
+	if ctx.Quick() {
+		args = append(args, "-short")
+	}
+	if runner.RepoDir != "/repo" {
+		args = append(args, "-modfile="+os.Getenv("VERIF_WORK")+"/go.mod")
+	}
+	cmd := exec.Command("go", append(args, "./racepass8/")...)
+	cmd.Dir = "/verif/harness"
+	cmd.Env = append(os.Environ(), "GOFLAGS=-mod=mod", "GOPROXY=off")
+	out, err := cmd.CombinedOutput()
+	ctx.Eval(1)
+	o := string(out)
+	tail := o
+	if len(tail) > 1500 {
+		tail = tail[len(tail)-1500:]
+	}
+	switch {
+	case strings.Contains(o, "WARNING: DATA RACE"):
+		i := strings.Index(o, "WARNING: DATA RACE")
+		end := i + 1500
+		if end > len(o) {
+			end = len(o)
+		}
+		ctx.Violate("concurrent-compilation.data-race", "two compilations that overlap in time share unsynchronised state: "+o[i:end], k)
+	case err != nil && strings.Contains(o, "--- FAIL"):
+		ctx.Violate("concurrent-compilation.differs", "compiling concurrently gives another result than compiling sequentially: "+tail, k)
+	case err != nil:
+		panic("race pass could not run: " + tail)
+	default:
+		ctx.Outcome("concurrent-compilations-race-free")
+		ctx.Nontrivial("race-pass")
 	}
 }
 
@@ -668,6 +711,8 @@ func work(ctx *runner.Ctx) {
 			}
 		}
 	}
+	// concurrent compilations in one process under the race detector
+	emit(cs{Mode: "race"})
 	// the application compiling several files in one invocation: every ordered selection of 1..3 of 4 programs
 	np := len(appCircPrograms)
 	for a := 0; a < np; a++ {
